@@ -221,6 +221,24 @@ impl Global {
         let global_epoch = self.epoch.load(Ordering::Relaxed);
         atomic::fence(Ordering::SeqCst);
 
+        // The scan below unlinks the entries of exited participants, and each unlink defers the
+        // destruction of the entry: a deferral that in turn asks for an advancement (every 64th
+        // does). Do not start a scan within the scan: it would nest as deep as there are such
+        // entries (divided by 64), and while the inner scans unlink further entries, fill bags
+        // and re-pin the thread, the outer ones keep their `pred`/`curr` pointers across
+        // arbitrarily many epochs, beyond the point where the entries they refer to are freed.
+        let local = unsafe { guard.local.as_ref() };
+        if let Some(local) = local {
+            if local.advancing.replace(true) {
+                return global_epoch;
+            }
+        }
+        let _scanning = scopeguard::guard((), |_| {
+            if let Some(local) = local {
+                local.advancing.set(false);
+            }
+        });
+
         // `Local`s are stored in a linked list because linked lists are fairly
         // easy to implement in a lock-free manner. However, traversal can be slow due to cache
         // misses and data dependencies. We should experiment with other data structures as well.
@@ -302,6 +320,8 @@ pub(crate) struct Local {
 
     must_collect: Cell<bool>,
     collecting: Cell<bool>,
+    /// Whether this participant is scanning the registry in `try_advance`.
+    advancing: Cell<bool>,
 
     /// The local epoch.
     epoch: CachePadded<AtomicEpoch>,
@@ -327,6 +347,7 @@ impl Local {
                 manual_count: Cell::new(0),
                 must_collect: Cell::new(false),
                 collecting: Cell::new(false),
+                advancing: Cell::new(false),
                 epoch: CachePadded::new(AtomicEpoch::new(Epoch::starting())),
             });
             collector.global.locals.insert(local, &unprotected());
